@@ -669,4 +669,4 @@ def check(ctx, world):
     # representation an operation can return (unreduced or negative coordinates, a projective shortcut) makes equal
     # points compare unequal or a point compare equal to its inverse.  Those are the encoder obligations of C15.
     from .common import include
-    include(ctx, world, "c15", "G2-encoding", keep=lambda o: o.rule in ("K3-encoder", "K5-encoder", "K5-encoder-reduced", "K5-encoder-total", "K3-encoder-total"))
+    include(ctx, world, "c15", "G2-encoding", keep=lambda o: o.rule in ("K3-encoder", "K5-encoder", "K5-encoder-reduced", "K5-encoder-total", "K3-encoder-total", "K5-encoder-inv"))
